@@ -110,15 +110,30 @@ def exact_sum(numbers):
     if not all(math.isfinite(number) for number in floats):
         return sum(floats) + whole
     try:
-        try:
-            part = math.fsum(floats)  # exactly rounded
-        except OverflowError:  # a partial sum beyond the largest double: the sum itself need not be
-            part = sum(Fraction(number) for number in floats)
-        if abs(whole) <= 2**53 and isinstance(part, float):
-            return whole + part
-        return float(Fraction(whole) + Fraction(part))
+        if not whole:
+            try:
+                return whole + math.fsum(floats)  # exactly rounded
+            except OverflowError:  # a partial sum beyond the largest double: the sum itself need not be
+                pass
+        # every item exactly, in units of the smallest double, and one rounding at the end (rounding
+        # the floats among themselves first made SUM(9007199254740992,-9007199254740991.0,0.3) 1)
+        total = whole * SMALLEST_DOUBLES
+        for number in floats:
+            numerator, denominator = number.as_integer_ratio()
+            total += numerator * (SMALLEST_DOUBLES // denominator)
+        return total / SMALLEST_DOUBLES  # the quotient of two whole numbers is rounded correctly
     except OverflowError:
         return error.NUM
+
+
+SMALLEST_DOUBLES = 2 ** 1074  # 1 in units of the smallest double (every double is a whole number of them)
+
+
+def mixed_beyond_double(lval, rval):
+    """one operand a float, the other a whole number that no double holds exactly, both finite"""
+    whole, other = (rval, lval) if isinstance(lval, float) else (lval, rval)
+    return (isinstance(whole, integer_types) and not isinstance(whole, bool) and abs(whole) > 2 ** 53
+            and other == other and not math.isinf(other))
 
 
 def inumbers(l, try_parse=False, text_is_zero=False):
